@@ -175,6 +175,18 @@ def _maybe_huge(sl, rng, p=0.05):
 
 def rowsel_random(n, rng):
     r = rng.random()
+    if n >= 3 and rng.random() < 0.06:
+        # a contiguous block of rows with its inner rows permuted / one inner row replaced by a repeat of another:
+        # first and last selected row are the first and last of the block
+        a = rng.randrange(0, n - 2); b = rng.randrange(a + 2, n)
+        inner = list(range(a + 1, b))
+        rng.shuffle(inner)
+        if inner and rng.random() < 0.4:
+            inner[rng.randrange(len(inner))] = rng.choice(list(range(a, b + 1)))
+        rows = [a] + inner + [b]
+        if rng.random() < 0.3:
+            rows = [i - n for i in rows]
+        return {"t": "list", "is": rows}
     if r < 0.1:
         return {"t": "all"}
     if r < 0.25:
